@@ -141,6 +141,56 @@ def check_artefact(ctx, a, stats):
     ctx.setmax("worst_residual_over_tolerance", worst)
 
 
+def check_file_corners(ctx, a, stats):
+    """File level: the four corner arrays of cell (ix, iy) against the file's own radial psi
+    grid - left corners on the flux surface of x-face ix, right corners on that of x-face ix+1
+    (psixy_xlow of the x-neighbour): the grid line shared by two radial regions must be ONE flux
+    surface whichever region wrote it.  Corners at an X-point are excluded."""
+    nc, side = a.nc, a.side
+    if "psixy_xlow" not in nc or "Rxy_lower_right_corners" not in nc:
+        return
+    opts = side["mesh"]["user_options"]
+    if opts.get("follow_perpendicular_recover"):
+        return
+    atol = float(opts.get("refine_atol", 2e-8))
+    ref = gu.ref_for(a)
+    px = np.array(nc["psixy_xlow"], float)
+    nx = px.shape[0]
+    xpts = [tuple(p) for p in side["eq"].get("x_points", [])]
+    nonorth = not opts.get("orthogonal", True)
+
+    def at_xpoint(R, Z):
+        m = np.zeros(R.shape, bool)
+        for (xr, xz) in xpts:
+            m |= np.hypot(R - xr, Z - xz) < 1e-3
+        return m
+
+    for name, face in (("corners", 0), ("upper_left_corners", 0), ("lower_right_corners", 1), ("upper_right_corners", 1)):
+        R = np.array(nc["Rxy_" + name], float)
+        Z = np.array(nc["Zxy_" + name], float)
+        if face == 0:
+            want, Rj, Zj = px, R, Z
+        else:
+            want, Rj, Zj = px[1:, :], R[:-1, :], Z[:-1, :]
+        if name.startswith("upper"):
+            # the upper corners of cell iy lie on the same flux surface as its lower ones
+            pass
+        ok = gu.in_domain(a, Rj, Zj) & ~at_xpoint(Rj, Zj) & np.isfinite(want)
+        got = ref.psi(Rj, Zj)
+        tol = 5.0 * atol * np.maximum(1.0, np.abs(want))
+        err = np.where(ok, np.abs(got - want), 0.0)
+        stats["file_corner_points"] = stats.get("file_corner_points", 0) + int(ok.sum())
+        ctx.setmax("worst_file_corner_residual_over_tolerance", float(np.max(err / tol)) if err.size else 0.0)
+        bad = np.argwhere(err > tol)
+        if len(bad):
+            i, j = map(int, bad[0])
+            ctx.violation("%s | file: %s corner of a cell is not on the flux surface of its x-face (psixy_xlow)" % (
+                "nonorth" if nonorth else "orth", "right" if face else "left"),
+                dict(config=a.config["label"], variable="Rxy_" + name, cell=[i, j], psi_at_corner=float(got[i, j]),
+                     psixy_xlow_of_face=float(want[i, j]), tol=float(tol[i, j]), n_bad=int(len(bad))),
+                replay=dict(config=a.config))
+
+
 def run(ctx, arts=None):
     if arts is None:
         arts = gu.select(ctx.tier, log=ctx.log)
@@ -153,6 +203,7 @@ def run(ctx, arts=None):
             refused += 1
             continue
         check_artefact(ctx, a, stats)
+        check_file_corners(ctx, a, stats)
         nontrivial += 1
         ctx.sample(dict(config=a.config["label"], regions=len(a.side["regions"])), limit=5)
     ctx.set("evaluations", len(arts))
@@ -160,6 +211,7 @@ def run(ctx, arts=None):
     ctx.set("refused_configurations", refused)
     ctx.set("grid_points_judged", stats["points"])
     ctx.set("pinned_corners_judged", stats["pinned"])
+    ctx.set("file_corner_points_judged", stats.get("file_corner_points", 0))
     ctx.set("worst_pinned_corner_distance_m", stats["worst_xpoint_dist"])
     ctx.set("rule", "corpus of lattice.corpus(tier): every topology x {orthogonal, non-orthogonal} "
             "with 0 deviations plus the listed single deviations; a configuration is non-trivial "
